@@ -115,9 +115,10 @@ class RateLimiter(BaseRateLimiter):
                         )
                         return True
                     recent_timestamps.insert(0, self._timestamp())
-                    if "." in key:
+                    if key not in ("global", "ip"):
                         # specific ip address rules take precedence
                         # stop evaluating global and ip rules
+                        # (an IPv6 address has no "." in it)
                         return False
         return False
 
